@@ -1,18 +1,20 @@
 #!/bin/bash
 # Run the quick check of its property against every seeded change under seeded/ (or the named ones).
-# Applies seeded/<id>/patch.diff to /repo, runs ./check, restores /repo.
+# Applies seeded/<id>/patch.diff to the tree named by SEED_REPO (default /repo; any git worktree of it will do, and leaves
+# /repo free for other work), runs ./check against that tree (REPO=...), restores the tree.
 cd "$(dirname "$0")/.." || exit 2
 out=${SEED_OUT:-build/seeded.tsv}
 mkdir -p build
-git -C /repo diff --quiet || { echo "/repo has local modifications, refusing"; exit 2; }
-restore() { git -C /repo checkout -- . 2>/dev/null; git -C /repo clean -fdq -- src include examples 2>/dev/null; }
+R=${SEED_REPO:-/repo}
+git -C $R diff --quiet || { echo "$R has local modifications, refusing"; exit 2; }
+restore() { git -C $R checkout -- . 2>/dev/null; git -C $R clean -fdq -- src include examples 2>/dev/null; }
 trap restore EXIT
 ids="$*"; [ -z "$ids" ] && ids=$(ls seeded)
 for id in $ids; do
   prop=$(python3 -c "import json;print(json.load(open('seeded/$id/meta.json'))['property'])")
-  git -C /repo apply "$PWD/seeded/$id/patch.diff" || { echo -e "$id\t$prop\tAPPLY-FAILED" | tee -a "$out"; continue; }
+  git -C $R apply "$PWD/seeded/$id/patch.diff" || { echo -e "$id\t$prop\tAPPLY-FAILED" | tee -a "$out"; continue; }
   t0=$(date +%s); log="build/seed-$id.log"
-  ./check "$prop" --tier ${SEED_TIER:-quick} >"$log" 2>&1; rc=$?
+  REPO=$R ./check "${SEED_PROP:-$prop}" --tier ${SEED_TIER:-quick} >"$log" 2>&1; rc=$?
   sig=$(grep -m1 '^violation: signature=' "$log" | sed 's/^violation: signature=\([^ ]*\).*/\1/')
   [ -z "$sig" ] && sig=$(grep -m1 'HARNESS\|BUILD-FAILED' "$log" | cut -c1-80)
   echo -e "$id\t$prop\texit=$rc\t$(( $(date +%s) - t0 ))s\t$sig" | tee -a "$out"
